@@ -51,6 +51,10 @@ type MethBytes []byte
 
 func (MethBytes) Marker() {}
 
+// Nibbles is a slice of a named byte type (the element type, not the slice, carries the name).
+type Nibble uint8
+type Nibbles []Nibble
+
 // TextT implements encoding.TextMarshaler / TextUnmarshaler: documented to become TagString.
 type TextT struct{ A, B uint8 }
 
@@ -125,6 +129,7 @@ func init() {
 	Named["PlainInt"] = &NamedType{Type: reflect.TypeOf(PlainInt(0)), TD: &TD{K: KI32}}
 	Named["MethInt"] = &NamedType{Type: reflect.TypeOf(MethInt(0)), TD: &TD{K: KI64}}
 	Named["MethBytes"] = &NamedType{Type: reflect.TypeOf(MethBytes(nil)), TD: &TD{K: KSlice, Elem: &TD{K: KU8}}}
+	Named["Nibbles"] = &NamedType{Type: reflect.TypeOf(Nibbles(nil)), TD: &TD{K: KSlice, Elem: &TD{K: KU8}}}
 	sharedTree := func(vd *VD) *rn.Tag {
 		one := func() *rn.Tag {
 			return &rn.Tag{Type: rn.Compound, K: [][]byte{[]byte("x"), []byte("Y")},
